@@ -114,6 +114,12 @@ def bounded_cases(seed, thorough=False):
     yield {'name': 'construction_route|model_differing_in_one_number_has_another_identifier', 'ok': not same, 'detail': ', '.join(same)}
     okp = type(mi.model.params['K']) is int and mi.model.pressure_range == (0, 1)
     yield {'name': 'construction_route|model_unchanged_by_identifier_query', 'ok': okp, 'detail': '' if okp else f"{mi.model.params} {mi.model.pressure_range}"}
+    # the parse of every text export of an isotherm whose values use all eight decimals at magnitudes above one
+    big = pygaps.PointIsotherm(pressure=[1.23456789, 12.3456789, 123.456789], loading=[0.12345678, 1.12345678, 11.12345678], **meta)
+    ids_b = {'original': big.iso_id, 'parsed JSON export': pgp.isotherm_from_json(big.to_json()).iso_id, 'parsed CSV export': pgp.isotherm_from_csv(big.to_csv()).iso_id,
+             'parsed AIF export': pgp.isotherm_from_aif(big.to_aif()).iso_id}
+    okb = len(set(ids_b.values())) == 1
+    yield {'name': 'construction_route|parse_of_export_eight_decimals_above_one', 'ok': okb, 'detail': '' if okb else str(ids_b)}
     ints = pygaps.PointIsotherm(pressure=[1, 2, 3], loading=[1, 2, 3], **meta).iso_id
     flts = pygaps.PointIsotherm(pressure=[1., 2., 3.], loading=[1., 2., 3.], **meta).iso_id
     yield {'name': 'construction_route|integer_vs_float_literals', 'ok': ints == flts, 'detail': '' if ints == flts else f"{ints} != {flts}"}
